@@ -68,9 +68,9 @@ def inject(text, kind, rng):
         # errors found later by the type checker, at a random conjunct / list position
         bool_terms = ["(forall (qz : bool) qz)", "(exists (qz : clock) true)", "((sum (qz : bool) 1) > 0)", "(forall (qz : nosuchtype) (true))",
                       "(g0.nofield > 0)", "(N(1) > 0)", "(g0[1] > 0)", "(c0 > 1)", "(forall (qz : int[0,1]) qz.f > 0)", "(exists (qz : N) (qz.x > 0))",
-                      "(numOf(g0) > 0)", "(gx0[0] > 1)", "(N.x.y > 0)", "(abs(1, 2) > 0)", "(g0 ? 1 : c0)", "(gx0 > c0)", "(g0 == c0)"]
+                      "(numOf(g0) > 0)", "(gx0[0] > 1)", "(ga[gx0] > 0)", "(ga[c0] > 0)", "(ga[1.5] > 0)", "(ga[gx0 - gx0] > 0)", "(N[0] > 0)", "(ga[0][1] > 0)", "(N.x.y > 0)", "(abs(1, 2) > 0)", "(g0 ? 1 : c0)", "(gx0 > c0)", "(g0 == c0)"]
         upd_terms = ["g0 = (forall (qz : bool) qz)", "g0 = g0.nofield", "g0 = N(1)", "g0[1] = 2", "N = 3", "g0 = c0", "c0 = 1", "g0 = sum (qz : clock) 1",
-                     "spawn N(1)", "exit()", "g0 = numOf(g0)", "gx0 = gx0[1]", "g0 = abs(1, 2)", "N++", "g0 = (exists (qz : nosuchtype) (true))"]
+                     "spawn N(1)", "exit()", "g0 = numOf(g0)", "gx0 = gx0[1]", "g0 = abs(1, 2)", "N++", "g0 = ga[gx0]", "ga[1.5] = 1", "g0 = N[1]", "ga[c0] = 2", "g0 = (exists (qz : nosuchtype) (true))"]
         if kind in ("label:guard", "label:invariant"):
             parts = [p for p in text.split("&&")]
             term = rng.choice(bool_terms)
